@@ -266,6 +266,11 @@ func monC02(o *TypeOps, c Config, r *Rep) {
 			check(cl, v, m.V)
 			check(cl, m.V, v)
 		}
+		// two views of ONE backing array that start at the same element but differ in length
+		for _, sv := range SharedViews(v, 3) {
+			check("shared-backing-array", sv[0], sv[1])
+			check("shared-backing-array", sv[1], sv[0])
+		}
 	}
 	pl.unchanged(r, "deriveEqual")
 }
@@ -462,6 +467,7 @@ func monC05(o *TypeOps, c Config, r *Rep) {
 	srcs := g.Pool(o.T, c.PoolN)
 	gd := NewGen(itemSeed(c.Seed+7919, o.ID))
 	gd.NoShare = true
+	gd.NaNKeys = true // prior destination contents are arbitrary: a map there may hold a NaN key
 	kind := o.T.Kind()
 
 	// independence of two values a (copy) and b (original), after the copy was made
@@ -599,7 +605,7 @@ func monC05(o *TypeOps, c Config, r *Rep) {
 }
 
 func modeName(m Mode) string {
-	return [...]string{"random", "zero", "empty", "full", "nildeep"}[m]
+	return [...]string{"random", "zero", "empty", "full", "nildeep", "big"}[m]
 }
 
 // DeepCloneShared clones a value preserving internal sharing (DAG shape): pointers that were
@@ -682,4 +688,60 @@ func monC06(o *TypeOps, c Config, r *Rep) {
 	}
 	pl.unchanged(r, "deriveGoString")
 	r.Res.Extra = map[string]any{"records": recs}
+}
+
+// SharedViews returns pairs (a, b) of values that are deep copies of v except that at one slice
+// position (len >= 2, outside maps) b's slice is a's slice re-sliced one element shorter: both
+// share the backing array and the first element, but differ in length.
+func SharedViews(v reflect.Value, max int) [][2]reflect.Value {
+	var out [][2]reflect.Value
+	for target := 0; target < max; target++ {
+		a := DeepClone(v)
+		b := DeepClone(a)
+		ctr := 0
+		if !shareAt(a, b, &ctr, target, 0) {
+			break
+		}
+		out = append(out, [2]reflect.Value{a, b})
+	}
+	return out
+}
+
+func shareAt(a, b reflect.Value, ctr *int, target, depth int) bool {
+	if depth > 100 {
+		return false
+	}
+	switch a.Kind() {
+	case reflect.Pointer:
+		if a.IsNil() || b.IsNil() {
+			return false
+		}
+		return shareAt(clean(a.Elem()), clean(b.Elem()), ctr, target, depth+1)
+	case reflect.Slice:
+		if a.Len() >= 2 && a.Len() == b.Len() {
+			if *ctr == target {
+				b.Set(a.Slice(0, a.Len()-1))
+				return true
+			}
+			*ctr++
+		}
+		for i := 0; i < a.Len() && i < b.Len(); i++ {
+			if shareAt(clean(a.Index(i)), clean(b.Index(i)), ctr, target, depth+1) {
+				return true
+			}
+		}
+	case reflect.Array:
+		for i := 0; i < a.Len(); i++ {
+			if shareAt(clean(a.Index(i)), clean(b.Index(i)), ctr, target, depth+1) {
+				return true
+			}
+		}
+	case reflect.Struct:
+		for i := 0; i < a.NumField(); i++ {
+			if shareAt(field(a, i), field(b, i), ctr, target, depth+1) {
+				return true
+			}
+		}
+	}
+	return false
 }
